@@ -695,3 +695,60 @@ M("C05", OP, """                        body=_replace(node, func=Name(id="method
                     orelse=fallback_call)""", """                        body=fallback_call,
                         orelse=fallback_call),
                     orelse=fallback_call)""", "_RecInliner always calls the fallback")
+
+SF = "pymbolic/mapper/stringifier.py"
+M("C06", SF, "PREC_BITWISE_AND = 9\nPREC_BITWISE_XOR = 8", "PREC_BITWISE_AND = 8\nPREC_BITWISE_XOR = 9", "PREC and/xor swapped")
+M("C06", SF, """        if enclosing_prec > my_prec:
+            return f"({s})"
+        else:
+            return s""", """        if enclosing_prec >= my_prec + 1:
+            return f"({s})"
+        else:
+            return s""", "equivalent parenthesize_if_needed (must stay silent)", expect="MISSED")
+M("C06", SF, """        kwargs["force_parens_around"] = (p.Quotient, p.FloorDiv, p.Remainder)
+        return self.parenthesize_if_needed(
+                self.join_rec("*", expr.children, PREC_PRODUCT, *args, **kwargs),""",
+  """        return self.parenthesize_if_needed(
+                self.join_rec("*", expr.children, PREC_PRODUCT, *args, **kwargs),""", "force_parens_around dropped in map_product")
+M("C06", SF, """                and ("-" in result or "+" in result) \\
+                and (enclosing_prec > PREC_SUM):
+            return self.parenthesize(result)""", """                and ("-" in result or "+" in result) \\
+                and (enclosing_prec > PREC_CALL):
+            return self.parenthesize(result)""", "negative constants never parenthesized")
+M("C06", SF, """                    self.rec(expr.shiftee, PREC_SHIFT+1, *args, **kwargs),
+                    self.rec(expr.shift, PREC_SHIFT+1, *args, **kwargs)),
+                enclosing_prec, PREC_SHIFT)
+
+    def map_right_shift""", """                    self.rec(expr.shiftee, PREC_SHIFT, *args, **kwargs),
+                    self.rec(expr.shift, PREC_SHIFT, *args, **kwargs)),
+                enclosing_prec, PREC_SHIFT)
+
+    def map_right_shift""", "+1 on left-shift operands removed")
+M("C06", SF, """                    self.rec(expr.then, PREC_LOGICAL_OR, *args, **kwargs),
+                    self.rec(expr.condition, PREC_LOGICAL_OR, *args, **kwargs),
+                    self.rec(expr.else_, PREC_LOGICAL_OR, *args, **kwargs)),
+                enclosing_prec, PREC_IF)
+
+    def map_if_positive""", """                    self.rec(expr.then, PREC_IF, *args, **kwargs),
+                    self.rec(expr.condition, PREC_IF, *args, **kwargs),
+                    self.rec(expr.else_, PREC_IF, *args, **kwargs)),
+                enclosing_prec, PREC_IF)
+
+    def map_if_positive""", "map_if prints its parts at PREC_IF")
+M("C06", SF, """                    self.rec(expr.base, PREC_POWER+1, *args, **kwargs),""",
+  """                    self.rec(expr.base, PREC_POWER, *args, **kwargs),""", "revert of fix 8e63be9 (power base)")
+M("C06", SF, """                    self.rec(expr.left, PREC_COMPARISON+1, *args, **kwargs),
+                    expr.operator,
+                    self.rec(expr.right, PREC_COMPARISON+1, *args, **kwargs)),""", """                    self.rec(expr.left, PREC_COMPARISON, *args, **kwargs),
+                    expr.operator,
+                    self.rec(expr.right, PREC_COMPARISON, *args, **kwargs)),""", "revert of fix 4332f71 (comparison chain)")
+M("C06", SF, """                "not " + self.rec(expr.child, PREC_LOGICAL_AND+1, *args, **kwargs),
+                enclosing_prec, PREC_LOGICAL_AND)""", """                "not " + self.rec(expr.child, PREC_UNARY, *args, **kwargs),
+                enclosing_prec, PREC_UNARY)""", "revert of fix e3f06f1 (printer not)")
+PA = "pymbolic/parser.py"
+M("C06", PA, """_PREC_BITWISE_XOR = 125""", """_PREC_BITWISE_XOR = 120""", "revert of fix 7393236 (xor level)")
+M("C06", PA, """_PREC_COMPARISON = 100
+
+_PREC_BITWISE_OR = 120""", """_PREC_COMPARISON = 200
+
+_PREC_BITWISE_OR = 120""", "revert of fix 60ad86c (comparison precedence)")
